@@ -111,6 +111,7 @@ class TimerScheduler:
             current_time = time.time()
             if current_time >= next_resume_time:
                 # Time to resume
+                due_state: ExecutableWithState | None = None
                 with self._lock:
                     # no branch cover because hard to test reliably - this is a double-safety check if heap mutated
                     # since the first peek on next_resume_time further up
@@ -121,7 +122,13 @@ class TimerScheduler:
                         _, _, exe_state = heapq.heappop(self._pending_resumes)
                         if exe_state.can_resume:
                             exe_state.reset_to_pending()
-                            self.resubmit_callback(exe_state)
+                            due_state = exe_state
+                # Resubmit outside the lock. The callback blocks on a checkpoint round trip, and the
+                # resubmitted task can finish before its done-callback is attached, in which case the
+                # callback runs right here and calls schedule_resume(): with the (non-reentrant) lock
+                # still held this thread would wait for itself, and shutdown() for this thread.
+                if due_state is not None:
+                    self.resubmit_callback(due_state)
             else:
                 # Wait until next resume time
                 wait_time = min(next_resume_time - current_time, 0.1)
